@@ -125,7 +125,7 @@ Lemma fl_cycle_sv : forall c s v k, sv (fl_cycle c s v k) = sv s /\ g_foreign (f
   (forall f fns, p_flight (fl_cycle c s v k) = FJson f fns -> f = v).
 Proof.
   intros c s v k. unfold fl_cycle. destruct (negb (v_alive v)); [simpl; repeat split; auto; intros; discriminate|].
-  destruct (fl_spawning c v (p_daemon s) (p_forever s)) as [d' dd]. simpl. repeat split; auto.
+  destruct (fl_spawning c v (p_daemon s) (p_forever s) (k_stop k)) as [d' dd]. simpl. repeat split; auto.
   intros f fns. match goal with |- context [if ?b then _ else _] => destruct b end; [intros; discriminate|].
   destruct (p_carried s ++ _); [intros; discriminate | intros H; injection H; auto].
 Qed.
@@ -183,8 +183,6 @@ Proof.
     apply InvA_server_change; auto. rewrite P2, fl_foreign_apply_fns. exact HA1.
   - (* LDaemonExit *)
     destruct (p_daemon s); try discriminate; injection Hs as <-; exact HA.
-  - (* LAbandon *)
-    destruct (p_daemon s); try discriminate; injection Hs as <-; exact HA.
   - (* LRestart *)
     injection Hs as <-. unfold InvA; simpl. auto.
 Qed.
@@ -210,7 +208,6 @@ Proof.
   - destruct (p_flight s); try discriminate. destruct (v_alive (sv s)); injection Hs as <-; reflexivity.
   - destruct (p_flight s) as [| |fresh fns]; try discriminate. injection Hs as <-. unfold fl_json.
     destruct (fl_eqb _ _); [reflexivity|]. destruct (negb _); [reflexivity|]. destruct (_ && _); reflexivity.
-  - destruct (p_daemon s); try discriminate; injection Hs as <-; reflexivity.
   - destruct (p_daemon s); try discriminate; injection Hs as <-; reflexivity.
   - injection Hs as <-. reflexivity.
 Qed.
@@ -263,7 +260,7 @@ Proof. intros. unfold InvB, fl_init; simpl. repeat split; auto; try discriminate
 
 (* what a cycle on a live view leaves behind *)
 Lemma fl_cycle_alive : forall c s v k, v_alive v = true ->
-  let sp := fl_spawning c v (p_daemon s) (p_forever s) in
+  let sp := fl_spawning c v (p_daemon s) (p_forever s) (k_stop k) in
   let a := fl_atoms c s v k (snd sp) (fl_h_delay c v k) in
   let out := fz_decide a in
   let s' := fl_cycle c s v k in
@@ -305,17 +302,17 @@ Proof.
   - destruct (c_del c), (v_mdel v); simpl in *; auto; discriminate.
 Qed.
 
-Lemma fl_spawning_live : forall c v d forever, fl_daemon_live (fst (fl_spawning c v d forever)) = true ->
+Lemma fl_spawning_live : forall c v d forever stop, fl_daemon_live (fst (fl_spawning c v d forever stop)) = true ->
   (fl_daemon_live d = true) \/ (v_deleting v = false /\ c_dmn c && v_mdmn v && negb forever = true).
 Proof.
-  intros c v d forever. unfold fl_spawning. destruct (v_deleting v).
-  - destruct d; simpl; auto.
-  - destruct d; simpl; auto; destruct (c_dmn c && v_mdmn v && negb forever) eqn:E; simpl; auto.
+  intros c v d forever stop. unfold fl_spawning, fl_staged. destruct (v_deleting v).
+  - destruct d, stop; simpl; auto.
+  - destruct (c_dmn c && v_mdmn v && negb forever) eqn:E; destruct d, stop; simpl; auto.
 Qed.
 
-Lemma fl_spawning_delays : forall c v d forever, v_deleting v = true ->
-  snd (fl_spawning c v d forever) = [] -> fst (fl_spawning c v d forever) = d /\ fl_daemon_live d = false.
-Proof. intros c v d forever Hd. unfold fl_spawning. rewrite Hd. destruct d; simpl; intros H; try discriminate; auto. Qed.
+Lemma fl_spawning_delays : forall c v d forever stop, v_deleting v = true ->
+  snd (fl_spawning c v d forever stop) = [] -> fl_daemon_live (fst (fl_spawning c v d forever stop)) = false.
+Proof. intros c v d forever stop Hd. unfold fl_spawning, fl_staged. rewrite Hd. destruct d, stop; simpl; intros H; try discriminate; auto. Qed.
 
 Section PartB.
   Variable c : fl_cfg.
@@ -368,20 +365,20 @@ Section PartB.
       destruct (v_alive v) eqn:Hal.
       2:{ unfold fl_cycle. rewrite Hal. simpl. unfold InvB, fl_set_op; simpl. fl_close B4. }
       pose proof (fl_cycle_alive c s v k Hal) as HC. cbv zeta in HC.
-      set (sp := fl_spawning c v (p_daemon s) (p_forever s)) in *.
+      set (sp := fl_spawning c v (p_daemon s) (p_forever s) (k_stop k)) in *.
       set (a := fl_atoms c s v k (snd sp) (fl_h_delay c v k)) in *.
       set (out := fz_decide a) in *. set (s' := fl_cycle c s v k) in *.
       destruct HC as [C1 [C2 [C3 [C4 [C5 C6]]]]].
       assert (Hdone : g_done s = true -> g_done s' = true) by (intros H; rewrite C5, H; reflexivity).
       (* daemon clause *)
       assert (HB4 : fl_daemon_live (p_daemon s') = true -> c_dmn c = true /\ v_mdmn (sv s') = true /\ p_forever s' = false).
-      { rewrite C1, C3, C4. intros Hl. destruct (fl_spawning_live _ _ _ _ Hl) as [Hl' | [_ Hsp]]; [auto|].
+      { rewrite C1, C3, C4. intros Hl. destruct (fl_spawning_live _ _ _ _ _ Hl) as [Hl' | [_ Hsp]]; [auto|].
         rewrite V3 in Hsp. destruct (c_dmn c), (v_mdmn (sv s)), (p_forever s); simpl in Hsp; try discriminate; auto. }
       (* old pending releases stay justified *)
       assert (Hold : Just c s -> Just c s').
       { intros [J1 [J2 J3]]. unfold Just. rewrite C1. split; [auto|]. split.
         - rewrite C3. destruct (fl_daemon_live (fst sp)) eqn:El; [|reflexivity]. exfalso.
-          destruct (fl_spawning_live _ _ _ _ El) as [Hl' | [Hnd Hsp]]; [congruence|].
+          destruct (fl_spawning_live _ _ _ _ _ El) as [Hl' | [Hnd Hsp]]; [congruence|].
           unfold NoSpawn in J3. rewrite Ev in J3. rewrite V3 in Hsp. destruct J3 as [J3 | [_ J3]]; congruence.
         - unfold NoSpawn in *. rewrite C1, C2, C4. destruct J3 as [J3 | [J3 _]]; [left; exact J3 | right; split; auto]. }
       (* a release decided in this cycle is justified *)
@@ -394,15 +391,15 @@ Section PartB.
           + intros H1 H2. rewrite H1, H2 in M2. discriminate.
           + split.
             * rewrite C3. destruct (fl_daemon_live (fst sp)) eqn:El; [|reflexivity]. exfalso.
-              destruct (fl_spawning_live _ _ _ _ El) as [Hl' | [_ Hsp]].
+              destruct (fl_spawning_live _ _ _ _ _ El) as [Hl' | [_ Hsp]].
               -- destruct (B4 Hl') as [D1 [D2 D3]]. rewrite D1, D2, D3 in M1. discriminate.
               -- rewrite V3 in Hsp. congruence.
             * left. rewrite C1, C4. exact M1.
         - (* the release proper *)
           unfold a, fl_atoms in Hon, Hdel, Hb, Hsd; simpl in Hon, Hdel, Hb, Hsd.
           apply app_eq_nil in Hsd. destruct Hsd as [Hsd _].
-          destruct (fl_spawning_delays c v (p_daemon s) (p_forever s) Hon Hsd) as [Hd1 Hd2]. fold sp in Hd1.
-          unfold Just. rewrite C1, C3, Hd1. split; [|split; [exact Hd2 | right; rewrite C1, C2; split; auto]].
+          pose proof (fl_spawning_delays c v (p_daemon s) (p_forever s) (k_stop k) Hon Hsd) as Hd2. fold sp in Hd2.
+          unfold Just. rewrite C1, C3. split; [|split; [exact Hd2 | right; rewrite C1, C2; split; auto]].
           intros H1 H2. rewrite C5.
           assert (Hpre : match a_chg a with Some hs => fz_chg_prematch hs | None => false end = true).
           { unfold a, fl_atoms; simpl. rewrite H1, V2, H2. reflexivity. }
@@ -477,10 +474,6 @@ Section PartB.
         destruct J3 as [J3 | J3]; [left | right; exact J3].
         destruct (c_dmn c), (v_mdmn (sv s)), (p_forever s); simpl in *; try discriminate; auto; rewrite Hf; auto. }
       destruct (p_daemon s); try discriminate; injection Hs as <-; apply Hgo; auto.
-    - (* LAbandon *)
-      destruct (p_daemon s) eqn:Ed; try discriminate. injection Hs as <-.
-      unfold InvB, fl_set_daemon; simpl. split; [exact B1|]. split; [exact B2|]. split; [exact B3|].
-      split; [intros; discriminate|]. intros Hin. destruct (B5 Hin) as [J1 [J2 J3]]. rewrite Ed in J2. discriminate J2.
     - (* LRestart *)
       injection Hs as <-. unfold InvB; simpl. fl_close B4.
   Qed.
@@ -525,12 +518,12 @@ End PartB.
 Definition fl_k0 : fl_orc :=
   {| k_spawn_others := []; k_chg_others := [{| ch_reqfin := false; ch_prematch := true |}]; k_low_empty := true;
      k_ctime := CtNone; k_timed_out := true; k_sdelays_others := []; k_cdelays_others := []; k_h_finishes := false;
-     k_other_rec := false; k_extra_merge := false |}.
+     k_other_rec := false; k_extra_merge := false; k_stop := SStill |}.
 Definition fl_k_with (rec sibling_retries : bool) : fl_orc :=
   {| k_spawn_others := []; k_chg_others := [{| ch_reqfin := false; ch_prematch := true |}]; k_low_empty := true;
      k_ctime := CtNone; k_timed_out := true; k_sdelays_others := [];
      k_cdelays_others := if sibling_retries then [1%Z] else []; k_h_finishes := false;
-     k_other_rec := rec; k_extra_merge := true |}.
+     k_other_rec := rec; k_extra_merge := true; k_stop := SStill |}.
 
 Definition fl_cfg_f8 : fl_cfg := {| c_own := "kopf"; c_del := true; c_dmn := false; c_shared := true |}.
 (* F8: the update run of the function registered under the same id leaves a finished record while a sibling is
@@ -572,7 +565,7 @@ Qed.
 (* non-vacuity of the partial theorem: a calm history with an unshared id that does release (after H finished) *)
 Definition fl_k_fin : fl_orc :=
   {| k_spawn_others := []; k_chg_others := []; k_low_empty := true; k_ctime := CtNone; k_timed_out := true;
-     k_sdelays_others := []; k_cdelays_others := []; k_h_finishes := true; k_other_rec := false; k_extra_merge := true |}.
+     k_sdelays_others := []; k_cdelays_others := []; k_h_finishes := true; k_other_rec := false; k_extra_merge := true; k_stop := SStill |}.
 Definition fl_trace_good : list fl_label :=
   [LEvent; LCycle fl_k0; LJson; LForeign ["other"; "kopf"]; LDelete; LEvent; LCycle fl_k_fin; LMerge].
 
@@ -624,7 +617,6 @@ Proof.
     unfold fl_mem in E. apply existsb_exists in E. destruct E as [x [Hin Hx]]. apply String.eqb_eq in Hx. subst x.
     exists (c_own c). split; [exact Hin|]. rewrite Hm. reflexivity.
   - destruct (p_daemon s); try discriminate; injection Hs as <-; exact Hm.
-  - destruct (p_daemon s); try discriminate; injection Hs as <-; exact Hm.
   - injection Hs as <-. exact Hm.
 Qed.
 
@@ -637,10 +629,10 @@ Qed.
 Definition fl_k_quiet (h_finishes extra_merge : bool) : fl_orc :=
   {| k_spawn_others := []; k_chg_others := []; k_low_empty := true; k_ctime := CtNone; k_timed_out := true;
      k_sdelays_others := []; k_cdelays_others := []; k_h_finishes := h_finishes; k_other_rec := true;
-     k_extra_merge := extra_merge |}.
+     k_extra_merge := extra_merge; k_stop := SStill |}.
 
 Lemma fl_cycle_extra_merge : forall c s v k, v_alive v = true -> k_extra_merge k = true ->
-  let sp := fl_spawning c v (p_daemon s) (p_forever s) in
+  let sp := fl_spawning c v (p_daemon s) (p_forever s) (k_stop k) in
   let out := fz_decide (fl_atoms c s v k (snd sp) (fl_h_delay c v k)) in
   exists r, p_flight (fl_cycle c s v k) = FMerge r (p_carried s ++ o_fns out) /\ sv (fl_cycle c s v k) = sv s /\
             p_carried (fl_cycle c s v k) = p_carried s /\ p_view (fl_cycle c s v k) = None.
@@ -660,17 +652,23 @@ Proof.
   apply (fl_foreign_idem own l).
 Qed.
 
-Theorem fl_released_eventually : forall c s,
+Definition fl_k_quiet_stop (stop : fl_stop) : fl_orc :=
+  {| k_spawn_others := []; k_chg_others := []; k_low_empty := true; k_ctime := CtNone; k_timed_out := true;
+     k_sdelays_others := []; k_cdelays_others := []; k_h_finishes := true; k_other_rec := true;
+     k_extra_merge := true; k_stop := stop |}.
+
+(* the same with the daemon's stop outcome as a parameter: it is enough that stop_daemons reports no delay for D *)
+Theorem fl_released_eventually_stop : forall c s stop,
   p_flight s = FNone -> p_carried s = [] ->
   v_alive (sv s) = true -> v_deleting (sv s) = true -> fl_mem (c_own c) (v_fins (sv s)) = true ->
-  fl_daemon_live (p_daemon s) = false ->
-  exists s', fl_run c s [LEvent; LCycle (fl_k_quiet true true); LMerge; LJson] = Some s' /\
+  snd (fl_spawning c (sv s) (p_daemon s) (p_forever s) stop) = [] ->
+  exists s', fl_run c s [LEvent; LCycle (fl_k_quiet_stop stop); LMerge; LJson] = Some s' /\
              fl_mem (c_own c) (v_fins (sv s')) = false /\
              v_fins (sv s') = fl_foreign (c_own c) (v_fins (sv s)) /\
              p_carried s' = [] /\ p_flight s' = FNone.
 Proof.
-  intros c s Hf Hc Hal Hdel Hown Hd.
-  set (k := fl_k_quiet true true).
+  intros c s stop Hf Hc Hal Hdel Hown Hd.
+  set (k := fl_k_quiet_stop stop).
   set (s1 := fl_set_op s (Some (sv s)) (p_carried s) (p_flight s)).
   assert (E1 : fl_step c s LEvent = Some s1) by reflexivity.
   assert (E2 : fl_step c s1 (LCycle k) = Some (fl_cycle c s1 (sv s) k)).
@@ -678,9 +676,8 @@ Proof.
   destruct (fl_cycle_extra_merge c s1 (sv s) k Hal eq_refl) as [r [F1 [F2 [F3 F4]]]].
   set (s2 := fl_cycle c s1 (sv s) k) in *.
   (* the decision of this cycle *)
-  assert (Hsp : fl_spawning c (sv s) (p_daemon s1) (p_forever s1) = (p_daemon s, [])).
-  { unfold fl_spawning. rewrite Hdel. simpl. destruct (p_daemon s); simpl in Hd; try discriminate; reflexivity. }
-  rewrite Hsp in F1. simpl snd in F1.
+  change (snd (fl_spawning c (sv s) (p_daemon s1) (p_forever s1) (k_stop k))) with
+         (snd (fl_spawning c (sv s) (p_daemon s) (p_forever s) stop)) in F1. rewrite Hd in F1.
   set (a := fl_atoms c s1 (sv s) k [] (fl_h_delay c (sv s) k)) in *.
   assert (Hcar : p_carried s1 = []) by exact Hc.
   assert (Hhd : fl_h_delay c (sv s) k = []).
@@ -723,4 +720,18 @@ Proof.
     rewrite Nat.eqb_refl. simpl v_deleting. simpl v_fins. rewrite F2. change (sv s1) with (sv s). rewrite Hna. rewrite andb_false_r. simpl.
     destruct (fl_with_fins_proj x' (fl_foreign (c_own c) (v_fins (sv s)))) as [_ [P2 _]]. rewrite P2.
     repeat split; auto. apply fl_mem_allow.
+Qed.
+
+Theorem fl_released_eventually : forall c s,
+  p_flight s = FNone -> p_carried s = [] ->
+  v_alive (sv s) = true -> v_deleting (sv s) = true -> fl_mem (c_own c) (v_fins (sv s)) = true ->
+  fl_daemon_live (p_daemon s) = false ->
+  exists s', fl_run c s [LEvent; LCycle (fl_k_quiet true true); LMerge; LJson] = Some s' /\
+             fl_mem (c_own c) (v_fins (sv s')) = false /\
+             v_fins (sv s') = fl_foreign (c_own c) (v_fins (sv s)) /\
+             p_carried s' = [] /\ p_flight s' = FNone.
+Proof.
+  intros c s Hf Hc Hal Hdel Hown Hd.
+  apply (fl_released_eventually_stop c s SStill Hf Hc Hal Hdel Hown).
+  unfold fl_spawning, fl_staged. rewrite Hdel. destruct (p_daemon s); simpl in Hd; try discriminate; reflexivity.
 Qed.
